@@ -24,7 +24,7 @@ RULE = ('Sensor histories of N samples (2..40 quick, 2..400 thorough) from three
         '10 s are findings. Non-trivial: N >= 3 and (family != random or non-default parameters); distinct = case hash.')
 ASSUMPTIONS = ['inputs are finite, non-zero, acc and mag at least 1 degree from parallel (the statement\'s domain)',
                'a 10 s watchdog (SIGALRM) turns a non-terminating call into a finding of kind hang']
-REQUIRED_LABELS = ['recursive:family=canonical', 'recursive:family=random', 'recursive:family=mixed',
+REQUIRED_LABELS = ['recursive:AngularRate_method=integration', 'recursive:family=canonical', 'recursive:family=random', 'recursive:family=mixed',
                    'single:family=canonical', 'single:family=random']
 
 G = 9.81
@@ -143,7 +143,8 @@ def _rec_case(tier):
     return st.integers(0, N_SPECS-1).flatmap(lambda i: st.fixed_dictionaries({
         'spec': st.just(i), 'P': _param_strategy(i), 'hist': history_strategy(max_n),
         'frame': st.sampled_from(['NED', 'ENU']), 'dip': gen.fl(-80.0, 80.0),
-        'rep': st.sampled_from(['quaternion', 'quaternion', 'rotmat', 'angles'])}))
+        'rep': st.sampled_from(['quaternion', 'quaternion', 'rotmat', 'angles']),
+        'integration': st.integers(0, 3).map(lambda k: k == 0)}))     # AngularRate's third documented method (batch only)
 
 
 def _param_strategy(i):
@@ -218,6 +219,10 @@ def eval_recursive(case, ctx):
     rep = case['rep']
     if spec.name == 'AngularRate' and rep != 'quaternion':
         P = dict(P, representation=rep)
+    if spec.name == 'AngularRate' and case.get('integration'):
+        P = dict({k: v for k, v in P.items() if k != 'order'}, method='integration')
+        tag += '[integration]'
+        ctx.label('AngularRate_method=integration')
     ok, obj = _guarded(ctx, tag, fam, lambda: spec.build(gyr, acc, mag, frame, dip, P, None))
     if not ok:
         return
